@@ -12,14 +12,14 @@ PROFILE = {"max_tests": 4, "max_top": 1, "max_depth": 2, "max_fixtures": 4, "p_h
            "p_fixture_arg": 0.7, "p_inject": 0.4, "p_generator": 0.85, "raise_kinds": ["Exception", "AbortTest"]}
 
 
-def partial_setup_project(rng, scope):
+def partial_setup_project(rng, scope, must_raise=False):
     """A setup phase that fails part-way: the first fixture of the scope is set up (and logs), a later one raises.
     What was set up must still be torn down when the run is being stopped by a backend failure."""
     a, b, c = 3, 4, 5
     fx = [{"name": "f%d" % a, "scope": scope, "params": [], "per_thread": False, "generator": True,
            "setup": [["log", 1, 1]], "teardown": [["log", 1, 2]]},
           {"name": "f%d" % b, "scope": scope, "params": ["f%d" % a], "per_thread": False, "generator": True,
-           "setup": [["log", 1, 3]] + ([["raise", rng.choice(["Exception", "AbortTest"])]] if rng.random() < 0.7 else [["log", 3, 4]]),
+           "setup": [["log", 1, 3]] + ([["raise", rng.choice(["Exception", "AbortTest"])]] if (rng.random() < 0.7 or must_raise) else [["log", 3, 4]]),
            "teardown": [["log", 1, 5]]}]
     hooks = {"setup_suite": None, "teardown_suite": [["log", 1, 6]] if rng.random() < 0.5 else None, "setup_test": None, "teardown_test": None}
     tests = [{"name": "t%d" % (10 + i), "disabled": False, "rank": i, "deps": [], "args": ["f%d" % b] if i == 0 else [], "params": {},
@@ -39,8 +39,9 @@ def check(run):
     run.prove(extra_targets=engine.TARGETS + ["theories/Model/Handler.vo"])
     nproj = 16 if run.tier == "quick" else 150
     base = engine.gen_cases(run, nproj, profile=PROFILE, threads=(1, 2, 3), prefix="p")
-    for i in range(4 if run.tier == "quick" else 30):
-        base.append({"id": "ps%d" % i, "project": partial_setup_project(run.rng, run.rng.choice(["suite", "session"])), "sched": [],
+    for i in range(6 if run.tier == "quick" else 40):
+        # both scopes in turn; the first four always raise in the second fixture
+        base.append({"id": "ps%d" % i, "project": partial_setup_project(run.rng, ["suite", "session"][i % 2], must_raise=i < 4), "sched": [],
                      "options": {"nb_threads": run.rng.choice([1, 2]), "stop_on_failure": False, "force_disabled": False}})
     # first run without fault to know how many events each project produces
     res0 = sim.run_cases(base)
